@@ -348,7 +348,11 @@ def whitespace_placement(chk, prog):
                 if r_ in (getattr(prog, "new_functions", []) or []) and walks(r_, seen + (name,)):
                     return True
             return False
-        token_fns = {nm for nm in {blk_.get("from_fn") for blk_ in b.blocks if blk_.get("from_fn")} if not walks(nm)}
+        def consumes(name):
+            hb = prog.bodies.get(name)
+            return hb is not None and bool(hb.calls_to(r"Parser(::<'a>)?::next$|Peekable::<I>::(next|next_if|next_if_eq)$|Iterator>?::next$"))
+        # (a helper that only skips whitespace and peeks — `peek_past_whitespace` — is neither: its blocks count as the walker's own)
+        token_fns = {nm for nm in {blk_.get("from_fn") for blk_ in b.blocks if blk_.get("from_fn")} if not walks(nm) and consumes(nm)}
         for bi_, blk_ in enumerate(b.blocks):
             if blk_.get("inlined_ret") in token_fns and blk_.get("from_fn") not in token_fns:
                 ends.append(bi_)
